@@ -33,6 +33,13 @@ var netParams = map[string]*chaincfg.Params{
 var customNet = ref.Net{Name: "verifnet", CashPrefix: "verifnet", P2PKHID: 0x30, P2SHID: 0x32, WIFID: 0x64,
 	HDPriv: [4]byte{0x04, 0x20, 0xb9, 0x00}, HDPub: [4]byte{0x04, 0x20, 0xbd, 0x3a}}
 
+// siblingNet: an eighth parameter set for C02, NOT registered: a copy of the main network's parameters
+// (same network magic, same legacy version bytes) under other CashAddr prefixes - what a fork of the
+// chain passes to DecodeAddress.  Anything the library remembers per network must be keyed by what
+// actually distinguishes parameter sets (here: the prefixes), not by the magic or the name.
+var siblingNet = ref.Net{Name: "mainfork", CashPrefix: "bchfork", SlpPrefix: "slpfork", P2PKHID: 0x00, P2SHID: 0x05, WIFID: 0x80,
+	HDPriv: [4]byte{0x04, 0x88, 0xad, 0xe4}, HDPub: [4]byte{0x04, 0x88, 0xb2, 0x1e}}
+
 var customNetOnce sync.Once
 
 func registerCustomNet() {
@@ -45,6 +52,9 @@ func registerCustomNet() {
 			panic("harness: cannot register the custom network: " + err.Error())
 		}
 		netParams["verifnet"] = &p
+		q := chaincfg.MainNetParams
+		q.CashAddressPrefix, q.SlpAddressPrefix = siblingNet.CashPrefix, siblingNet.SlpPrefix
+		netParams[siblingNet.Name] = &q
 	})
 }
 
@@ -68,6 +78,9 @@ func checksumTwins(gen func(i uint32) []byte, limit uint32) (a, b []byte, ok boo
 func refNet(name string) ref.Net {
 	if name == customNet.Name {
 		return customNet
+	}
+	if name == siblingNet.Name {
+		return siblingNet
 	}
 	for _, n := range ref.Nets {
 		if n.Name == name {
